@@ -305,3 +305,122 @@ func synthOvfRoll(r *Rng) ([]byte, int) {
 	storedBlock(w, true, nil)
 	return w.bytes(), off
 }
+
+// synthManyLong: dynamic blocks with many long codes (literal/length codes of 13..15 bits,
+// distance codes of 11..15 bits), complete or not: the long-code sub-tables get crowded.
+func synthManyLong(r *Rng) []byte {
+	w := &bitW{}
+	var out []byte
+	if r.Bool() {
+		blk := r.Bytes(r.Range(1, 40000))
+		storedBlock(w, false, blk)
+		out = append(out, blk...)
+	}
+	fit := func(lens []int) {
+		// lengthen codes until the Kraft sum is at most 1
+		for {
+			sum := 0
+			for _, l := range lens {
+				if l > 0 {
+					sum += 1 << uint(15-l)
+				}
+			}
+			if sum <= 1<<15 {
+				return
+			}
+			for tries := 0; ; tries++ {
+				i := r.Intn(len(lens))
+				if lens[i] > 0 && lens[i] < 15 {
+					lens[i]++
+					break
+				}
+				if tries > 10000 {
+					panic("fit")
+				}
+			}
+		}
+	}
+	nb := r.Range(1, 3)
+	for b := 0; b < nb; b++ {
+		litLens := make([]int, 286)
+		nshort := r.Intn(6)
+		nlong := r.Pick([]int{0, 3, 20, 100, 250})
+		for i := 0; i < nshort; i++ {
+			litLens[r.Intn(286)] = r.Range(1, 8)
+		}
+		for i := 0; i < nlong; i++ {
+			litLens[r.Intn(286)] = r.Range(9, 15)
+		}
+		if litLens[256] == 0 {
+			litLens[256] = r.Range(1, 15)
+		}
+		fit(litLens)
+		distLens := make([]int, 30)
+		switch r.Intn(4) {
+		case 0: // the known crowded shape: one code of 11 bits, the others of 15
+			for i := range distLens {
+				distLens[i] = 15
+			}
+			distLens[r.Intn(30)] = 11
+		case 1:
+			for i := range distLens {
+				distLens[i] = r.Range(11, 15)
+			}
+		case 2:
+			for i := range distLens {
+				if r.Bool() {
+					distLens[i] = r.Range(10, 15)
+				}
+			}
+			distLens[r.Intn(30)] = r.Range(1, 3)
+		default:
+			for i := range distLens {
+				distLens[i] = r.Pick([]int{0, 2, 5, 9, 10, 11, 12, 13, 14, 15})
+			}
+		}
+		fit(distLens)
+		var lits, lsyms, dsyms []int
+		for s, l := range litLens {
+			if l > 0 && s < 256 {
+				lits = append(lits, s)
+			}
+			if l > 0 && s > 256 {
+				lsyms = append(lsyms, s)
+			}
+		}
+		for s, l := range distLens {
+			if l > 0 {
+				dsyms = append(dsyms, s)
+			}
+		}
+		var toks []tok
+		for i := r.Range(0, 60); i > 0; i-- {
+			if len(lsyms) > 0 && len(dsyms) > 0 && len(out) > 0 && r.Intn(3) == 0 {
+				ls := lsyms[r.Intn(len(lsyms))] - 257
+				ds := dsyms[r.Intn(len(dsyms))]
+				ln := lenBase[ls]
+				if lenExtra[ls] > 0 {
+					ln += r.Intn(1 << lenExtra[ls])
+				}
+				d := distBase[ds]
+				if distExtra[ds] > 0 {
+					d += r.Intn(1 << distExtra[ds])
+				}
+				if d > len(out) || d > 32768 {
+					continue
+				}
+				toks = append(toks, tok{Len: ln, Dist: d, Alt: ln == 258 && ls == 27})
+				for k := 0; k < ln; k++ {
+					out = append(out, out[len(out)-d])
+				}
+			} else if len(lits) > 0 {
+				l := lits[r.Intn(len(lits))]
+				toks = append(toks, tok{Lit: byte(l)})
+				out = append(out, byte(l))
+			}
+		}
+		dynHeader(r, w, b == nb-1, litLens, distLens, r.Intn(3), r.Intn(4), "")
+		writeTokens(w, toks, litLens, distLens, true)
+	}
+	return w.bytes()
+}
